@@ -10,7 +10,7 @@ for d in sorted(os.listdir(root)):
         continue
     m = json.load(open(mp))
     det = m.get('detected_by') or []
-    rnd = re.search(r"-r(\d)-", d)
+    rnd = re.search(r"-r(\d+)-", d)
     rows.append((d, m.get('property', '?'), 'round ' + (rnd.group(1) if rnd else '1'), ', '.join(det) if det else '**not detected**',
                  ', '.join(m.get('not_detected_by', [])), (m.get('summary') or '').replace('|', '/').replace('\n', ' ')[:150]))
 with open(os.path.join(root, 'INDEX.md'), 'w') as f:
